@@ -71,6 +71,15 @@ def gen_ops(tier, rng):
                 ops.append((f"new {d} {p} {fl}", {"cat": "new"}))
                 if rng.random() < 0.3:
                     ops.append((f"newstream {d} {p} {fl}", {"cat": "newstream"}))
+    # option records that change the derived goroutine / split parameters: every accepted encoder must stay usable
+    optflags = ["ag=1000", "ag=4096", "ag=20000", "ag=40000", "ag=65536", "ag=131072", "ag=1000000", "ms=1", "ms=100000",
+                "ag=40000,ms=20000", "ag=131072,ms=60000", "g=1", "g=3", "g=1000", "ag=30000,g=2", "gfni-,avxgfni-,ag=40000",
+                "nosimd,ag=50000", "ag=50000,ms=500"]
+    for (d, p) in [(5, 3), (12, 4), (20, 4), (50, 14), (3, 11), (10, 10), (1, 1), (4, 0)]:
+        for fl in optflags:
+            ops.append((f"new {d} {p} {fl}", {"cat": "new-options"}))
+            if rng.random() < 0.5:
+                ops.append((f"newstream {d} {p} bs={rng.choice([1, 64, 4096, 40000, 131072])},{fl}", {"cat": "newstream-options"}))
     for _ in range(200 if tier == "quick" else 3000):
         d = rng.choice([rng.randint(-2, 300), rng.randint(1, 70000)])
         p = rng.choice([rng.randint(-2, 300), rng.randint(0, 70000)])
